@@ -633,8 +633,30 @@ def mon_C07(ctx):
         if chosen not in names or any(nm not in n2c for nm in names):
             ctx.bad('tie-message-inconsistent', TRUE)
             continue
-        if 'prior stage' in A['msg']:
-            ctx.reach('tie-by-prior-stage')
+        if ctx.rule == 'scotland':
+            # rules 49(2)/51(2): the most recent earlier stage at which one of the tied candidates alone had the fewest
+            # (exclusion) or the most (surplus) votes decides; only if no stage does is the tie broken by lot (declared order)
+            lowest = 'defeat' in A['msg']
+            T = [n2c[nm] for nm in names]
+            x = n2c[chosen]
+            stages = [B for B in acts[:i] if B['tag'] == 'round']
+            def uniq(B, c):
+                vc = num(ctx, B['cstate'][c]['vote'])
+                return z3.And([(a_lt(ctx, vc, num(ctx, B['cstate'][d]['vote'])) if lowest else a_lt(ctx, num(ctx, B['cstate'][d]['vote']), vc))
+                               for d in T if d != c])
+            decided = [z3.Or([uniq(B, c) for c in T]) for B in stages]
+            alts = []
+            for k in range(len(stages)):
+                later_undecided = z3.And([z3.Not(decided[j]) for j in range(k + 1, len(stages))] + [TRUE])
+                alts.append(z3.And(uniq(stages[k], x), later_undecided))
+            by_stage = z3.Or(alts + [z3.BoolVal(False)])
+            none_decides = z3.And([z3.Not(dd) for dd in decided] + [TRUE])
+            by_lot = z3.And(none_decides, z3.And([tr[x] < tr[d] for d in T if d != x] + [TRUE]))
+            if 'prior stage' in A['msg']:
+                ctx.reach('tie-by-prior-stage')
+                ctx.bad('scottish-tie-not-decided-by-most-recent-unequal-stage', z3.Not(by_stage))
+            else:
+                ctx.bad('scottish-tie-by-lot-although-a-stage-decides-or-wrong-order', z3.Not(by_lot))
             continue
         for nm in names:
             if nm != chosen:
